@@ -58,14 +58,9 @@ Section Proofs.
 
   (* ---------- chunk.go ---------- *)
 
-  (* What it means for a chunk to be a verified answer to a request for [i].
-     The second disjunct is the corner the code really has: Chunk.ID returns the
-     all-zero ChunkID{} when Data fails, so an undecodable or empty object passes
-     the [sum != id] test when the all-zero id was requested; that chunk never
-     yields data. *)
+  (* What it means for a chunk to be a verified answer to a request for [i]. *)
   Definition verified (i : id) (c : chunk) : Prop :=
-    (exists b, data_of c = Some b /\ H b = i /\ c_idcalc c = true /\ c_id c = i)
-    \/ (i = zero_id /\ data_of c = None /\ c_idcalc c = false).
+    exists b, data_of c = Some b /\ H b = i /\ c_idcalc c = true /\ c_id c = i.
 
   Definition rgood (i : id) (r : res chunk) : Prop :=
     match r with Ok c => verified i c | Err _ => True end.
@@ -90,56 +85,89 @@ Section Proofs.
     now destruct (from_storage cv raw).
   Qed.
 
+  Lemma data_of_set_id c x : data_of (set_id c x) = data_of c.
+  Proof.
+    unfold ChunkVerify.data_of, ChunkVerify.chunk_data, set_id. cbn [c_data c_storage c_conv].
+    destruct (nonempty (c_data c)); [reflexivity|].
+    destruct (nonempty (c_storage c)); [|reflexivity].
+    now destruct (from_storage (c_conv c) (c_storage c)).
+  Qed.
+
+  (* Chunk.ID after a successful Chunk.Data: the digest of those bytes, and the chunk still
+     yields them. *)
+  Lemma chunk_id_after_data c d c1 :
+    c_idcalc c = false -> chunk_data c = (Some d, c1) ->
+    exists c', chunk_id c1 = (H d, c') /\ data_of c' = Some d /\ c_idcalc c' = true /\ c_id c' = H d.
+  Proof.
+    intros Hf E. pose proof (data_memo c) as M. rewrite E in M. cbn [snd] in M.
+    assert (Hd : data_of c1 = Some d).
+    { rewrite M. unfold ChunkVerify.data_of. now rewrite E. }
+    assert (Hf1 : c_idcalc c1 = false).
+    { revert E. unfold ChunkVerify.chunk_data.
+      destruct (nonempty (c_data c)); [intros E; now injection E as _ <-|].
+      destruct (nonempty (c_storage c)); [|discriminate].
+      destruct (from_storage (c_conv c) (c_storage c)); [|discriminate].
+      intros E. injection E as _ <-. exact Hf. }
+    unfold ChunkVerify.chunk_id. rewrite Hf1.
+    unfold ChunkVerify.data_of in Hd.
+    destruct (chunk_data c1) as [[d'|] c2] eqn:E2; cbn [fst] in Hd; [|discriminate].
+    injection Hd as ->. eexists. split; [reflexivity|].
+    pose proof (data_memo c1) as M2. rewrite E2 in M2. cbn [snd] in M2.
+    assert (Hd2 : data_of c2 = Some d).
+    { rewrite M2. unfold ChunkVerify.data_of. now rewrite E2. }
+    repeat split. now rewrite data_of_set_id.
+  Qed.
+
   Lemma from_storage_verified_strong i raw cv c :
     new_chunk_from_storage i raw cv false = Ok c -> verified i c.
   Proof.
-    unfold ChunkVerify.new_chunk_from_storage, ChunkVerify.chunk_id, ChunkVerify.chunk_data.
-    cbn [c_idcalc c_data c_storage c_conv nonempty].
-    destruct (nonempty raw) eqn:Er.
-    - destruct (from_storage cv raw) as [d|] eqn:Ed.
-      + destruct (N.eqb (H d) i) eqn:Eh; [|discriminate]. apply N.eqb_eq in Eh.
-        intros E. injection E as <-. left. exists d.
-        unfold ChunkVerify.data_of, ChunkVerify.chunk_data, set_id, set_data.
-        cbn [c_data c_storage c_conv c_id c_idcalc].
-        destruct (nonempty d); cbn [fst]; [auto|]. rewrite Er, Ed. cbn [fst]. auto.
-      + destruct (N.eqb zero_id i) eqn:Eh; [|discriminate]. apply N.eqb_eq in Eh.
-        intros E. injection E as <-. right. rewrite data_of_storage_only, Er, Ed. auto.
-    - destruct (N.eqb zero_id i) eqn:Eh; [|discriminate]. apply N.eqb_eq in Eh.
-      intros E. injection E as <-. right. rewrite data_of_storage_only, Er. auto.
+    unfold ChunkVerify.new_chunk_from_storage.
+    destruct (chunk_data (mkChunk [] raw cv i false)) as [[d|] c1] eqn:E; [|discriminate].
+    destruct (chunk_id_after_data _ d c1 (eq_refl : c_idcalc (mkChunk _ _ _ _ false) = false) E) as (c' & Ei & Hd & Hc & Hi).
+    rewrite Ei. destruct (N.eqb (H d) i) eqn:Eh; [|discriminate]. apply N.eqb_eq in Eh.
+    intros X. injection X as <-. exists d. rewrite <- Eh. auto.
   Qed.
 
   Lemma with_id_verified_strong i b c :
     new_chunk_with_id i b false = Ok c -> verified i c.
   Proof.
-    unfold ChunkVerify.new_chunk_with_id, ChunkVerify.chunk_id, ChunkVerify.chunk_data.
-    cbn [c_idcalc c_data c_storage c_conv nonempty].
-    destruct (nonempty b) eqn:Eb.
-    - destruct (N.eqb (H b) i) eqn:Eh; [|discriminate]. apply N.eqb_eq in Eh.
-      intros E. injection E as <-. left. exists b.
-      unfold ChunkVerify.data_of, ChunkVerify.chunk_data, set_id. cbn [c_data c_storage c_conv c_id c_idcalc].
-      rewrite Eb. cbn [fst]. auto.
-    - destruct (N.eqb zero_id i) eqn:Eh; [|discriminate]. apply N.eqb_eq in Eh.
-      intros E. injection E as <-. right.
-      unfold ChunkVerify.data_of, ChunkVerify.chunk_data. cbn [c_data c_storage c_conv c_id c_idcalc nonempty].
-      rewrite Eb. cbn [fst]. auto.
+    unfold ChunkVerify.new_chunk_with_id.
+    destruct (chunk_data (mkChunk b [] [] i false)) as [[d|] c1] eqn:E; [|discriminate].
+    destruct (chunk_id_after_data _ d c1 (eq_refl : c_idcalc (mkChunk _ _ _ _ false) = false) E) as (c' & Ei & Hd & Hc & Hi).
+    rewrite Ei. destruct (N.eqb (H d) i) eqn:Eh; [|discriminate]. apply N.eqb_eq in Eh.
+    intros X. injection X as <-. exists d. rewrite <- Eh. auto.
   Qed.
 
-  Lemma verified_data i c : verified i c ->
-    (exists b, data_of c = Some b /\ H b = i) \/ (i = zero_id /\ data_of c = None).
-  Proof. intros [(b & ? & ? & _)|(? & ? & _)]; [left; eauto|right; auto]. Qed.
+  Lemma verified_data i c : verified i c -> exists b, data_of c = Some b /\ H b = i.
+  Proof. intros (b & ? & ? & _). eauto. Qed.
 
-  (* The corner is real: any undecodable or empty object is accepted under the all-zero id. *)
-  Lemma zero_id_accepts_undecodable raw cv :
+  Lemma from_storage_verified i raw cv c :
+    new_chunk_from_storage i raw cv false = Ok c -> exists b, data_of c = Some b /\ H b = i.
+  Proof. intros E. eapply verified_data, from_storage_verified_strong, E. Qed.
+
+  (* Before commit 27b0229: Chunk.ID returns the all-zero ChunkID{} when Data fails, so every
+     undecodable or empty object passed the [sum != id] test under the all-zero id. *)
+  Lemma pre27b0229_zero_id_accepts_undecodable raw cv :
     (if nonempty raw then from_storage cv raw else None) = None ->
-    exists c, new_chunk_from_storage zero_id raw cv false = Ok c /\ data_of c = None.
+    exists c, new_chunk_from_storage_pre27b0229 H zdecomp zero_id raw cv false = Ok c /\ data_of c = None.
   Proof.
     intros E. exists (mkChunk [] raw cv zero_id false). split.
-    - unfold ChunkVerify.new_chunk_from_storage, ChunkVerify.chunk_id, ChunkVerify.chunk_data.
+    - unfold new_chunk_from_storage_pre27b0229, ChunkVerify.chunk_id, ChunkVerify.chunk_data.
       cbn [c_idcalc c_data c_storage c_conv nonempty].
       destruct (nonempty raw).
       + now rewrite E.
       + reflexivity.
     - now rewrite data_of_storage_only.
+  Qed.
+
+  (* ... and the repaired constructor rejects exactly those objects, whatever the id. *)
+  Lemma undecodable_rejected i raw cv :
+    (if nonempty raw then from_storage cv raw else None) = None ->
+    new_chunk_from_storage i raw cv false = Err EInvalid.
+  Proof.
+    intros E. unfold ChunkVerify.new_chunk_from_storage, ChunkVerify.chunk_data.
+    cbn [c_data c_storage c_conv nonempty].
+    destruct (nonempty raw); [now rewrite E|reflexivity].
   Qed.
 
   (* With verification disabled the constructor hands on whatever it was given. *)
@@ -310,5 +338,331 @@ Section Proofs.
     intros E. destruct (verifying s) eqn:V.
     - left. eapply stack_sound_strong; eauto.
     - pose proof (get_any s i w) as G. rewrite E in G. cbn in G. destruct G; auto.
+  Qed.
+
+  Theorem stack_sound s i w c w' :
+    verifying s = true -> get s i w = (Ok c, w') -> exists b, data_of c = Some b /\ H b = i.
+  Proof. intros V E. eapply verified_data, stack_sound_strong; eauto. Qed.
+
+  Theorem stack_sound_skip s i w c w' :
+    get s i w = (Ok c, w') ->
+    (exists b, data_of c = Some b /\ H b = i)
+    \/ (verifying s = false /\ exists raw cv, c = mkChunk [] raw cv i true).
+  Proof.
+    intros E. destruct (stack_sound_any s i w c w' E) as [V|U].
+    - left. eapply verified_data, V.
+    - right. exact U.
+  Qed.
+
+  (* With verification disabled a leaf hands on whatever its backend holds. *)
+  Lemma skip_leaf_returns_stored k o i w raw :
+    lo_skip o = true ->
+    w_fault w (w_hist w) (OpGet k i) = NoFault -> w_obj w k i = Some raw ->
+    let c := mkChunk [] raw (converters (lo_uncompressed o)) i true in
+    fst (get (W (WLeaf k o)) i w) = Ok c
+    /\ data_of c = (if nonempty raw then from_storage (converters (lo_uncompressed o)) raw else None).
+  Proof.
+    intros Hs Hf Ho c. split; [|apply data_of_storage_only].
+    cbn [ChunkVerify.get ChunkVerify.wget]. unfold ChunkVerify.leaf_get.
+    assert (Hr : raw_fetch k i w = (Found raw, w_log (OpGet k i) w)).
+    { unfold raw_fetch. now rewrite Hf, Ho. }
+    assert (Hl : leaf_fetch k o i w = (Found raw, w_log (OpGet k i) w)).
+    { unfold leaf_fetch. destruct (lo_kind o); try exact Hr.
+      - destruct (pred (lo_retry o)); cbn [fetch_retry]; now rewrite Hr.
+      - destruct (lo_retry o); cbn [fetch_retry]; now rewrite Hr. }
+    rewrite Hl, Hs. reflexivity.
+  Qed.
+
+  (* A sequence of requests. *)
+  Lemma get_many_sound s ids w rs w' :
+    verifying s = true -> get_many s ids w = (rs, w') ->
+    Forall2 (fun i r => forall c, r = Ok c -> exists b, data_of c = Some b /\ H b = i) ids rs.
+  Proof.
+    intros V. revert w rs w'. induction ids as [|i r IH]; intros w rs w'; cbn [ChunkVerify.get_many].
+    - intros E. injection E as <- _. constructor.
+    - destruct (get s i w) as [x w1] eqn:E1. destruct (get_many s r w1) as [xs w2] eqn:E2.
+      intros E. injection E as <- _. constructor; [|eapply IH, E2].
+      intros c ->. eapply stack_sound; eauto.
+  Qed.
+
+  (* ---------- what a request does to the world ---------- *)
+
+  (* Every object this code path asks a backend to store is the storage form of bytes that
+     hash to the id it is stored under. *)
+  Definition put_ok (i : id) (o : op) : Prop :=
+    match o with
+    | OpPut _ j bs => j = i /\ exists b cv, H b = i /\ bs = to_storage cv b
+    | _ => True
+    end.
+
+  Definition ext (i : id) (w w' : world) : Prop :=
+    exists ops, w_hist w' = w_hist w ++ ops /\ Forall (put_ok i) ops
+      /\ w_fault w' = w_fault w
+      /\ (forall k j, (forall bs, ~ In (OpPut k j bs) ops) -> w_obj w' k j = w_obj w k j).
+
+  Lemma ext_refl i w : ext i w w.
+  Proof. exists []. rewrite app_nil_r. repeat split; auto. Qed.
+
+  Lemma ext_trans i w1 w2 w3 : ext i w1 w2 -> ext i w2 w3 -> ext i w1 w3.
+  Proof.
+    intros (o1 & H1 & F1 & G1 & O1) (o2 & H2 & F2 & G2 & O2). exists (o1 ++ o2). repeat split.
+    - now rewrite H2, H1, app_assoc.
+    - apply Forall_app; auto.
+    - congruence.
+    - intros k j N. rewrite O2, O1; auto; intros bs Hin; apply (N bs), in_or_app; auto.
+  Qed.
+
+  Lemma ext_log i o w : put_ok i o -> (forall k j b, o <> OpPut k j b) -> ext i w (w_log o w).
+  Proof.
+    intros P N. exists [o]. repeat split; auto.
+  Qed.
+
+  Lemma raw_fetch_ext i k j w : ext i w (snd (raw_fetch k j w)).
+  Proof.
+    assert (E : ext i w (w_log (OpGet k j) w)) by (apply ext_log; [exact I|discriminate]).
+    unfold raw_fetch. destruct (w_fault w (w_hist w) (OpGet k j)); cbn [snd]; auto;
+      destruct (w_obj w k j); cbn [snd]; auto.
+  Qed.
+
+  Lemma net_ext i h j w : ext i w (snd (net h j w)).
+  Proof. unfold net. cbn [snd]. apply ext_log; [exact I|discriminate]. Qed.
+
+  Lemma set_act_ext i f a w : ext i w (w_set_act f a w).
+  Proof. exists []. cbn. rewrite app_nil_r. repeat split; auto. Qed.
+
+  Lemma raw_put_ext i k bs w :
+    (exists b cv, H b = i /\ bs = to_storage cv b) -> ext i w (snd (raw_put k i bs w)).
+  Proof.
+    intros P. unfold raw_put.
+    assert (Store : forall b', ext i w (w_store k i b' (w_log (OpPut k i bs) w))).
+    { intros b'. exists [OpPut k i bs]. repeat split; cbn; auto.
+      - constructor; [|constructor]. cbn. auto.
+      - intros k' j N. destruct (Nat.eqb k k') eqn:Ek; cbn [andb]; auto.
+        destruct (N.eqb i j) eqn:Ej; auto.
+        apply Nat.eqb_eq in Ek. apply N.eqb_eq in Ej. subst. exfalso. apply (N bs). now left. }
+    assert (Log : ext i w (w_log (OpPut k i bs) w)).
+    { exists [OpPut k i bs]. repeat split; cbn; auto. constructor; [|constructor]. cbn. auto. }
+    destruct (w_fault w (w_hist w) (OpPut k i bs)); cbn [snd]; auto.
+  Qed.
+
+  Lemma fetch_retry_ext i rm n k j w : ext i w (snd (fetch_retry rm n k j w)).
+  Proof.
+    revert w. induction n as [|n IH]; intros w; cbn [fetch_retry];
+      pose proof (raw_fetch_ext i k j w) as E; destruct (raw_fetch k j w) as [f w1]; cbn [snd] in *; auto.
+    destruct f; cbn [snd]; auto; try (eapply ext_trans; [exact E|apply IH]).
+    destruct rm; cbn [snd]; auto. eapply ext_trans; [exact E|apply IH].
+  Qed.
+
+  Lemma leaf_get_ext i k o j w : ext i w (snd (leaf_get k o j w)).
+  Proof.
+    unfold ChunkVerify.leaf_get.
+    assert (E : ext i w (snd (leaf_fetch k o j w))).
+    { unfold leaf_fetch. destruct (lo_kind o); try apply raw_fetch_ext; apply fetch_retry_ext. }
+    destruct (leaf_fetch k o j w) as [f w1]. cbn [snd] in E.
+    destruct f; cbn [snd]; auto; destruct (lo_kind o); cbn [snd]; auto.
+  Qed.
+
+  Lemma wget_ext i l j w : ext i w (snd (wget l j w)).
+  Proof.
+    revert w. induction l as [k o|l IH|l IH|l IH]; intros w; cbn [ChunkVerify.wget]; auto.
+    - apply leaf_get_ext.
+    - specialize (IH w). destruct (wget l j w) as [[c|[]] w1]; cbn [snd] in *; auto.
+  Qed.
+
+  Lemma verified_id_data i c : verified i c ->
+    exists b c1 c2, chunk_id c = (i, c1) /\ chunk_data c1 = (Some b, c2) /\ H b = i.
+  Proof.
+    intros (b & Hd & Hh & Hc & Hi). unfold ChunkVerify.chunk_id. rewrite Hc, Hi.
+    unfold ChunkVerify.data_of in Hd. destruct (chunk_data c) as [d c2] eqn:E. cbn [fst] in Hd. subst d.
+    exists b, c, c2. auto.
+  Qed.
+
+  Lemma wput_ext i l c w : verified i c -> ext i w (snd (wput l c w)).
+  Proof.
+    intros V. revert w. induction l as [k o|l IH|l IH|l IH]; intros w; cbn [ChunkVerify.wput]; auto.
+    unfold ChunkVerify.leaf_put.
+    destruct (verified_id_data i c V) as (b & c1 & c2 & E1 & E2 & Hh). rewrite E1, E2.
+    apply raw_put_ext. eauto.
+  Qed.
+
+  Definition gext (i : id) (g : getter) : Prop := forall w, ext i w (snd (g w)).
+
+  Lemma cache_get_ext up l i : ggood i up -> gext i up -> gext i (cache_get up l i).
+  Proof.
+    intros Gu Eu w. unfold ChunkVerify.cache_get.
+    pose proof (wget_ext i l i w) as E1. destruct (wget l i w) as [[c|[]] w1]; cbn [snd] in *; auto.
+    pose proof (Eu w1) as E2. pose proof (Gu w1) as G2.
+    destruct (up w1) as [[c|e] w2]; cbn [snd fst] in *; [|eapply ext_trans; eauto].
+    pose proof (wput_ext i l c w2 G2) as E3.
+    destruct (wput l c w2) as [[u|e] w3]; cbn [snd] in *; eapply ext_trans; eauto; eapply ext_trans; eauto.
+  Qed.
+
+  Lemma router_get_ext i gs : Forall (gext i) gs -> gext i (router_get gs).
+  Proof.
+    intros F. induction F as [|g r Hg F IH]; intros w; cbn [router_get snd]; [apply ext_refl|].
+    specialize (Hg w). destruct (g w) as [[c|[]] w1]; cbn [snd] in *; auto.
+    eapply ext_trans; [exact Hg|apply IH].
+  Qed.
+
+  Lemma failover_loop_ext i n f g0 gs e : Forall (gext i) (g0 :: gs) -> gext i (failover_loop n f g0 gs e).
+  Proof.
+    intros F. revert e. induction n as [|n IH]; intros e w; cbn [failover_loop snd]; [apply ext_refl|].
+    match goal with |- context [nth ?a ?l ?d w] =>
+      assert (Hn : forall w', ext i w' (snd (nth a l d w')));
+      [ destruct (nth_in_or_default a l d) as [Hin|Hd];
+        [ rewrite Forall_forall in F; apply F, Hin | rewrite Hd; inversion F; auto ]
+      | specialize (Hn w); destruct (nth a l d w) as [[c|[]] w1]; cbn [snd] in *; auto ]
+    end;
+    (eapply ext_trans; [exact Hn|]; eapply ext_trans; [apply set_act_ext|apply IH]).
+  Qed.
+
+  Lemma http_serve_ext i sc un inner : gext i inner -> forall w, ext i w (snd (http_serve sc un inner w)).
+  Proof.
+    intros Ei w. unfold ChunkVerify.http_serve.
+    destruct (negb (eqb (has_compression sc) (negb un))); cbn [snd]; [apply ext_refl|].
+    specialize (Ei w). destruct (inner w) as [[c|[]] w1]; cbn [snd] in *; auto.
+    destruct (nonempty (c_storage c) && convs_equal sc (c_conv c))%bool; cbn [snd]; auto.
+    destruct (data_of c); cbn [snd]; auto.
+  Qed.
+
+  Lemma http_loop_ext i n h sc sk un inner : gext i inner -> gext i (http_loop n h sc sk un inner i).
+  Proof.
+    intros Ei. induction n as [|n IH]; intros w; cbn [ChunkVerify.http_loop];
+      pose proof (http_serve_ext i sc un inner Ei w) as E1;
+      destruct (http_serve sc un inner w) as [r w1]; cbn [snd] in E1;
+      pose proof (net_ext i h i w1) as E2; destruct (net h i w1) as [fl w2]; cbn [snd] in E2;
+      assert (E : ext i w w2) by (eapply ext_trans; eauto);
+      destruct fl, r; cbn [snd]; auto; (eapply ext_trans; [exact E|apply IH]).
+  Qed.
+
+  Lemma proto_get_ext i h inner : gext i inner -> gext i (proto_get h inner i).
+  Proof.
+    intros Ei w. unfold ChunkVerify.proto_get.
+    specialize (Ei w). destruct (inner w) as [[c|[]] w1]; cbn [snd] in *; auto.
+    - destruct (data_of c); cbn [snd]; auto.
+      pose proof (net_ext i h i w1) as E2. destruct (net h i w1) as [[] w2]; cbn [snd] in *;
+        eapply ext_trans; eauto.
+    - pose proof (net_ext i h i w1) as E2. destruct (net h i w1) as [[] w2]; cbn [snd] in *;
+        eapply ext_trans; eauto.
+  Qed.
+
+  Lemma all_verifying_verifying s : all_verifying s = true -> verifying s = true.
+  Proof.
+    induction s as [l|s l IH|ss IH|f s0 ss IH0 IH|s IH|s IH|h sc sk un re s IH|h s IH] using stack_ind';
+      cbn [all_verifying verifying]; intros V; auto.
+    - apply andb_prop in V as [V1 V2]. rewrite IH; auto.
+    - rewrite forallb_forall in *. rewrite Forall_forall in IH. auto.
+    - apply andb_prop in V as [V1 V2]. rewrite IH0; auto. cbn [andb].
+      rewrite forallb_forall in *. rewrite Forall_forall in IH. auto.
+    - apply andb_prop in V as [V1 V2]. auto.
+  Qed.
+
+  Lemma get_ext s i : all_verifying s = true -> gext i (get s i).
+  Proof.
+    induction s as [l|s l IH|ss IH|f s0 ss IH0 IH|s IH|s IH|h sc sk un re s IH|h s IH] using stack_ind';
+      intros V w; cbn [ChunkVerify.get all_verifying] in *.
+    - apply wget_ext.
+    - apply andb_prop in V as [V1 V2]. apply cache_get_ext; auto.
+      apply get_good, all_verifying_verifying, V1.
+    - apply router_get_ext. rewrite Forall_map.
+      rewrite forallb_forall in V. rewrite Forall_forall in *. intros x Hx. apply IH; auto.
+    - apply andb_prop in V as [V1 V2]. unfold failover_get. apply failover_loop_ext.
+      constructor; [apply IH0, V1|]. rewrite Forall_map.
+      rewrite forallb_forall in V2. rewrite Forall_forall in *. intros x Hx. apply IH; auto.
+    - apply IH, V.
+    - apply IH, V.
+    - apply andb_prop in V as [V1 V2]. apply http_loop_ext; auto.
+    - apply proto_get_ext; auto.
+  Qed.
+
+  Theorem cache_writes_verified s i w r w' :
+    all_verifying s = true -> get s i w = (r, w') ->
+    exists ops, w_hist w' = w_hist w ++ ops
+      /\ (forall k j bs, In (OpPut k j bs) ops -> j = i /\ exists b cv, H b = i /\ bs = to_storage cv b)
+      /\ (forall k j, (forall bs, ~ In (OpPut k j bs) ops) -> w_obj w' k j = w_obj w k j).
+  Proof.
+    intros V E. pose proof (get_ext s i V w) as X. rewrite E in X. cbn [snd] in X.
+    destruct X as (ops & Hh & F & _ & O). exists ops. split; [exact Hh|]. split; [|exact O].
+    intros k j bs Hin. rewrite Forall_forall in F. exact (F _ Hin).
+  Qed.
+
+  (* ---------- consumers ---------- *)
+
+  Lemma write_chunk_sound s row w b w' :
+    verifying s = true -> write_chunk H zcomp zdecomp s row w = (Some b, w') ->
+    H b = fst row /\ length b = snd row.
+  Proof.
+    intros V. unfold write_chunk. destruct (get s (fst row) w) as [[c|e] w1] eqn:E; [|discriminate].
+    destruct (stack_sound s _ w c w1 V E) as (d & Hd & Hh). rewrite Hd.
+    destruct (Nat.eqb (snd row) (length d)) eqn:El; [|discriminate].
+    intros X. injection X as <- _. apply Nat.eqb_eq in El. auto.
+  Qed.
+
+  Lemma untar_worker_sound s row w b w' :
+    verifying s = true -> untar_worker H zcomp zdecomp s row w = (Some b, w') ->
+    H b = fst row /\ length b = snd row.
+  Proof.
+    intros V. unfold untar_worker. destruct (get s (fst row) w) as [[c|e] w1] eqn:E; [|discriminate].
+    destruct (stack_sound s _ w c w1 V E) as (d & Hd & Hh). rewrite Hd.
+    destruct (Nat.eqb (snd row) (length d)) eqn:El; [|discriminate].
+    intros X. injection X as <- _. apply Nat.eqb_eq in El. auto.
+  Qed.
+
+  Lemma sparse_load_sound s row w b w' :
+    verifying s = true -> sparse_load H zcomp zdecomp s row w = (Some b, w') -> H b = fst row.
+  Proof.
+    intros V. unfold sparse_load. destruct (get s (fst row) w) as [[c|e] w1] eqn:E; [|discriminate].
+    destruct (stack_sound s _ w c w1 V E) as (d & Hd & Hh). rewrite Hd.
+    intros X. injection X as <- _. exact Hh.
+  Qed.
+
+  Lemma readseeker_load_sound s nid nd row w b w' :
+    verifying s = true -> H nd = nid ->
+    readseeker_load H zcomp zdecomp s nid nd row w = (Some b, w') -> H b = fst row.
+  Proof.
+    intros V Hn. unfold readseeker_load. destruct (N.eqb (fst row) nid) eqn:En.
+    - intros X. injection X as <- _. apply N.eqb_eq in En. congruence.
+    - destruct (get s (fst row) w) as [[c|e] w1] eqn:E; [|discriminate].
+      destruct (stack_sound s _ w c w1 V E) as (d & Hd & Hh). rewrite Hd.
+      intros X. injection X as <- _. exact Hh.
+  Qed.
+
+  Lemma map_hash_eq (l1 l2 : list bytes) : map H l1 = map H l2 -> l1 = l2 \/ Collision H.
+  Proof.
+    revert l2. induction l1 as [|a r IH]; intros [|b r2]; cbn; try discriminate; auto.
+    intros E. injection E as Ea Er. destruct (hash_eq H a b Ea) as [->|C]; [|now right].
+    destruct (IH r2 Er) as [->|C]; auto.
+  Qed.
+
+  Lemma consume_all_hashes one rows w bs w' :
+    (forall row w b w', one row w = (Some b, w') -> H b = fst row) ->
+    consume_all one rows w = (Some bs, w') -> map H bs = map fst rows.
+  Proof.
+    intros Ho. revert w bs w'. induction rows as [|r rest IH]; intros w bs w'; cbn [consume_all].
+    - intros E. injection E as <- _. reflexivity.
+    - destruct (one r w) as [[b|] w1] eqn:E1; [|discriminate].
+      destruct (consume_all one rest w1) as [[bs'|] w2] eqn:E2; [|discriminate].
+      intros E. injection E as <- _. cbn. f_equal; eauto.
+  Qed.
+
+  (* A pipeline that hands on what one of the consumers gives it, row by row of an index that
+     describes the blob: success means the output is the blob, or H has a collision. *)
+  Theorem consumers_output_is_blob one rows w bs w' blob :
+    (forall row w b w', one row w = (Some b, w') -> H b = fst row) ->
+    index_describes H rows blob ->
+    consume_all one rows w = (Some bs, w') -> concat bs = blob \/ Collision H.
+  Proof.
+    intros Ho [Hl Hm] E. pose proof (consume_all_hashes one rows w bs w' Ho E) as Hb.
+    unfold ids in Hm. rewrite <- Hm in Hb.
+    destruct (map_hash_eq _ _ Hb) as [->|C]; [|now right].
+    left. apply concat_split_by. exact Hl.
+  Qed.
+
+  Theorem extract_output_is_blob s rows w w' bs blob :
+    verifying s = true -> index_describes H rows blob ->
+    consume_all (write_chunk H zcomp zdecomp s) rows w = (Some bs, w') -> concat bs = blob \/ Collision H.
+  Proof.
+    intros V D E. eapply consumers_output_is_blob; eauto.
+    intros row w0 b w0' X. eapply write_chunk_sound; eauto.
   Qed.
 End Proofs.
